@@ -73,6 +73,17 @@ def handle (cmd : String) (args : List Int) : Option String :=
       let bm := s!"{encBool (gridEqB a b)} {encBool (gridEqB b a)} {encBool (namesFaithful a b)} {encBool (namesFaithful b a)} {encBool (gridEqCoords a.g b.g)} {encBool (gridEqConnDA a.g b.g)}"
       pure (";".intercalate [ds, verdict (failing a.g b.g e1 n1), verdict (failing b.g a.g e2 n2),
         verdict (if symmOK e1 e2 then [] else ["eq_symm"]), m, bm, a.kind ++ "+" ++ b.kind])
+  | "C20.source" => do
+      -- a pair of SOURCE descriptions in one dialect: `hasFill fill start tA tB storedA storedB e1 n1 e2 n2`
+      let (hf, f, st, tA, tB, sA, sB, e1, n1, e2, n2) ← run (do
+        let hf ← bool; let f ← int; let st ← int
+        let tA ← rows; let tB ← rows; let sA ← rows; let sB ← rows
+        let e1 ← bool; let n1 ← bool; let e2 ← bool; let n2 ← bool
+        pure (hf, f, st, tA, tB, sA, sB, e1, n1, e2, n2)) args
+      let fill : Option Int := if hf then some f else none
+      let valid := validTable fill st tA && validTable fill st tB
+      pure (";".intercalate [encBool valid, verdict (sourceFailing fill st tA tB sA sB e1 n1 e2 n2),
+        encRows (procTable fill st tA), encRows (procTable fill st tB)])
   | "C20.wf" => do
       let a ← run gridP args
       pure (encBool a.wf)
